@@ -15,6 +15,12 @@ import (
 func init() {
 	Register(&Scenario{Prop: "C11", Name: "merge", Strict: true, Quick: 10, Thorough: 10, Run: runC11})
 	// every arrival order of the split file lists at the commit, enumerated (2..4 splits: 2, 6 or 24 orders)
+	// one failed store call inside each commit: the commit may fail; one that reports success is still the merge of all splits
+	Register(&Scenario{Prop: "C11", Name: "merge-one-store-error", Strict: false, Quick: 3, Thorough: 4, Run: func(rc *RunCtx) *simkit.Violation {
+		c11StoreErr = true
+		defer func() { c11StoreErr = false }()
+		return runC11(rc)
+	}})
 	Register(&Scenario{Prop: "C11", Name: "merge-all-arrival-orders", Strict: true, Quick: 2, Thorough: 4, Run: func(rc *RunCtx) *simkit.Violation {
 		c11AllOrders = true
 		defer func() { c11AllOrders = false }()
@@ -42,6 +48,9 @@ func cloneDiamond(d *DM, repo, from string) string {
 }
 
 var c11AllOrders bool
+
+// c11StoreErr: one store call of each commit fails (most often the read of a split's file list)
+var c11StoreErr bool
 
 // permutations of 0..n-1 in lexicographic order.
 func permutations(n int) [][]int {
@@ -220,9 +229,40 @@ func runC11(rc *RunCtx) *simkit.Violation {
 	var outs []*outcome
 	for i, mode := range modes {
 		c := w.Client(fmt.Sprintf("commit%d", i))
+		faultsBefore := 0
+		if c11StoreErr {
+			faultsBefore = w.Stats.Faults["F-ERR"]
+			pl := &simkit.Planned{Client: c.Name, Kind: simkit.FErr, Any: true, Nth: t.Range(0, 40)}
+			if t.Bool(2, 3) {
+				nth, n := t.Range(0, 8), 0
+				pl = &simkit.Planned{Client: c.Name, Kind: simkit.FErr, Match: func(cl *simkit.Call) bool {
+					if cl.Op != simkit.OpGet || !strings.Contains(cl.Key, "/splits/") || !strings.Contains(cl.Key, "bundle-files-") {
+						return false
+					}
+					n++
+					return n-1 == nth
+				}}
+			}
+			w.Faults = &simkit.FaultCfg{Plan: []*simkit.Planned{pl}}
+		}
 		tk, v := doOp(prop, w, c, fmt.Sprintf("commit-%d %s", i, mode), commitFn(d.Stores(c), "r1", ids[i], mode, leaf, nil))
+		w.Faults = nil
+		if v != nil && v.Class == "deadlock" && c11StoreErr && w.Stats.Faults["F-ERR"] > faultsBefore {
+			// a commit that never returns after a store error has not produced a wrong merge: outside the statement of
+			// C11 (recorded as an observation in DESIGN.md); the world is wedged, the run stops here
+			w.Probe("hang-after-store-error")
+			return nil
+		}
 		if v != nil {
 			return v
+		}
+		if c11StoreErr && tk.Err != nil && w.Stats.Faults["F-ERR"] > faultsBefore {
+			w.Probe("commit-failed-on-store-error")
+			outs = append(outs, nil)
+			continue
+		}
+		if c11StoreErr && w.Stats.Faults["F-ERR"] > faultsBefore {
+			w.Probe("commit-succeeded-despite-store-error")
 		}
 		if mode == model.ForbidConflicts {
 			if conflict && tk.Err == nil {
@@ -313,7 +353,7 @@ func runC11(rc *RunCtx) *simkit.Violation {
 		}
 	}
 	// a single-split diamond yields the same bundle as a plain upload of the same files
-	if k == 1 {
+	if k == 1 && outs[0] != nil {
 		up := w.Client("plain")
 		r := &mRepo{Name: "r1"}
 		l := leaf
